@@ -202,7 +202,7 @@ class Planted(Part):
     def strategy(self, tier):
         return planted()
 
-    def model(self, case, whole_expr=False):
+    def model(self, case, whole_expr=False, leak=False):
         env = values.env(case["bindings"])
         nodes = case["nodes"]
         if whole_expr:
@@ -233,7 +233,7 @@ class Planted(Part):
                             unit(a[3])
                         walk(n[1]["children"])
             walk(nodes)
-        r = tmodel.run_model(nodes, env)
+        r = tmodel.run_model(nodes, env, leak=leak)
         if r[0] == "exc":
             if isinstance(r[1], exprs.ExpressionError):
                 self.reached_uid = r[1].args[1] if len(r[1].args) > 1 \
@@ -350,6 +350,12 @@ class Planted(Part):
             # the deferred unit is larger than the invalid expression (whole
             # TALES expression / whole text node or attribute value)
             return Mismatch("planted:K7", detail)
+        lexp, _ = self.model(case, leak=True)
+        if got == lexp and lexp != exp:
+            # the deferred error was raised inside an element with
+            # tal:on-error, which handled it - and the variables that
+            # element had defined are still there afterwards (C13's K5)
+            return Mismatch("planted:K5", detail)
         return Mismatch("planted:non-strict %s vs %s" % (got[0], exp[0]),
                         detail)
 
@@ -476,7 +482,7 @@ class Planted(Part):
         return "offset does not point at token"
 
     def known(self, case, mismatch):
-        return "K7" if mismatch.bucket == "planted:K7" else None
+        return {"planted:K7": "K7", "planted:K5": "K5"}.get(mismatch.bucket)
 
 
 class CodeBlocks(Part):
